@@ -212,19 +212,34 @@ def check(run, vm):
                          % (cf, ct, dl_, dt))
     # ---- epilogues -------------------------------------------------------------------------------
     def writes(fn):
+        # in an order in which a block comes after the blocks that dominate it (the epilogue may branch)
         out = []
-        for _, e in fn.elements():
-            if e['k'] == 'BinaryOperator' and e['op'] == '=' and fn.is_root(e['i']):
-                out.append(cren(fn.render(e)).replace(' ', ''))
+        fdom = fn.dominators()
+        for b_ in sorted(fn.blocks, key=lambda x: len(fdom.get(x, ()))):
+            for e in fn.blocks[b_]['el']:
+                if e['k'] == 'BinaryOperator' and e['op'] == '=' and fn.is_root(e['i']):
+                    out.append(cren(fn.render(e)).replace(' ', ''))
         return out
     cw = writes(crun)
     dw = []
     end_b = labels.get('end')
     if end_b is None:
         raise AnalysisBroken('direct_run: label end not found')
-    for e in dr.blocks[end_b]['el']:
-        if e['k'] == 'BinaryOperator' and e['op'] == '=' and dr.is_root(e['i']):
-            dw.append(rren(dr.render(e)).replace(' ', ''))
+    # the epilogue is everything reachable from the label (it may branch: a deleted slot in the hand-back cell is freed first), taken in
+    # an order in which a block comes after the blocks that dominate it
+    reach, todo = [], [end_b]
+    while todo:
+        b_ = todo.pop(0)
+        if b_ in reach:
+            continue
+        reach.append(b_)
+        todo += [x for x in dr.blocks[b_]['succ'] if x not in reach]
+    ddom = dr.dominators()
+    reach.sort(key=lambda b_: len(ddom[b_]))
+    for b_ in reach:
+        for e in dr.blocks[b_]['el']:
+            if e['k'] == 'BinaryOperator' and e['op'] == '=' and dr.is_root(e['i']):
+                dw.append(rren(dr.render(e)).replace(' ', ''))
     # the current slot is stored through the FINAL map position: the pointer is written back first, then the store goes through it
     if '(map=reg.map)' in cw and '(*map=reg.is)' in cw and cw.index('(map=reg.map)') > cw.index('(*map=reg.is)'):
         run.violated('DRIVERS', 'call epilogue', crun.where(), 'call-threaded Machine::run stores the current slot through the map pointer BEFORE writing the final map position back: '
@@ -240,3 +255,58 @@ def check(run, vm):
         run.held('DRIVERS', 'direct epilogue', dr.where(), '__map = map; *__map = is')
     else:
         run.violated('DRIVERS', 'direct epilogue', dr.where(), 'direct_run does not write back __map = map / *__map = is: %s' % dw)
+    # the hand-back cell may hold a slot the action deleted (or a temporary copy): overwriting it hides the slot from
+    # SlotMap::collectGarbage for good (defect F23), so BOTH epilogues free it first -- same cell, same condition
+    from . import dom as _dom
+    from .util import reaches_avoiding as _ra
+    for nm, fn_, cell, cur in (('call', crun, '*map', 'reg.is'), ('direct', dr, '*__map', 'is')):
+        inst = '%s epilogue frees a deleted slot in the hand-back cell' % nm
+        store = [e for _, e in fn_.elements() if e['k'] == 'BinaryOperator' and e['op'] == '=' and fn_.is_root(e['i'])
+                 and fn_.render(fn_.strip(e['c'][0])).replace(' ', '') == cell and fn_.render(fn_.strip_all_casts(fn_.N(e['c'][1]))).replace(' ', '') == cur]
+        frees = [e for _, e in fn_.elements() if (e.get('fq') or '').endswith('Segment::freeSlot') and e.get('args')
+                 and fn_.render(fn_.strip_all_casts(fn_.N(e['args'][0]))).replace(' ', '') == cell]
+        if len(store) != 1:
+            run.broken('DRIVERS', inst, 'the hand-back store %s = %s was not found' % (cell, cur), fn_.where())
+            continue
+        ok = None
+        for fr in frees:
+            fs = [f[:3] for f in _dom.facts_at(fn_, fr['i'])]
+            conds = ' '.join(fn_.render(c_) for c_, _p in _dom.edge_guards(fn_, fn_.block_of[fr['i']]))
+            if (cell, '!=', cur) in fs and (cell, '!=', '0') in fs and _ra(fn_, fr, store[0]):
+                ok = fr
+        if ok is None:
+            run.violated('DRIVERS', inst, fn_.loc(store[0]), 'the %s-threaded interpreter writes the cursor over the current map cell without first freeing a deleted / temporary slot that cell may hold '
+                         '(no Segment::freeSlot(%s) under %s != 0 && %s != %s that reaches the store): an action that ends on a slot it deleted loses that slot -- it is never detached '
+                         'from its parent\'s child chain; the other interpreter build %s' % (nm, cell, cell, cell, cur, 'frees it' if nm == 'direct' else 'frees it'))
+            continue
+        # the free must not be narrower than "deleted or copied": every path from the write-back of the map pointer to the store that
+        # avoids the free passes a branch that establishes  !isDeleted()  and one that establishes  !isCopied()  (or cell == 0 / cell == cursor)
+        blk = fn_.block_of[store[0]['i']]
+        need = {'isDeleted': False, 'isCopied': False}
+        for cnd, pol in _dom.edge_guards(fn_, blk):
+            pass
+        esc = {}
+        for which in need:
+            cut = _dom.edges_with(fn_, lambda f, which=which: (which + '()' in f[0] and cell.lstrip('*') in f[0] and ((f[1] == '==' and f[2] == '0'))) or (f[0].replace(' ', '') == cell and f[1] == '==' and f[2] in ('0', cur)))
+            esc[which] = cut
+        # paths from the function entry to the store avoiding the free and all cut edges
+        def reach_without(cut):
+            seen, todo = set(), [fn_.entry]
+            fb = fn_.block_of[ok['i']]
+            while todo:
+                b_ = todo.pop()
+                if b_ is None or b_ in seen or b_ == fb:
+                    continue
+                seen.add(b_)
+                if b_ == blk:
+                    return True
+                for idx_, x_ in enumerate(fn_.blocks[b_]['succ']):
+                    if (b_, idx_) not in cut:
+                        todo.append(x_)
+            return False
+        miss = [w_ for w_ in need if reach_without(esc[w_])]
+        if miss:
+            run.violated('DRIVERS', inst, fn_.loc(ok), 'the %s-threaded epilogue reaches the store %s = %s without the free on a path that has not established !%s(): such a slot in the hand-back cell is '
+                         'still lost to SlotMap::collectGarbage' % (nm, cell, cur, miss[0]))
+        else:
+            run.held('DRIVERS', inst, fn_.loc(ok), 'Segment::freeSlot(%s) under %s != 0 && %s != %s; the store is reached without it only when the cell is neither deleted nor copied' % (cell, cell, cell, cur))
